@@ -267,6 +267,8 @@ def fold(mod, prop_id, tier, seed, results, scratch, t0, args):
                 json.dump({"property": prop_id, "tier": tier, "seed": seed, "mechanism": v["mechanism"], "detail": v["detail"], "replay": v["replay"], "shard": v["shard"]}, f, indent=1)
             print("  mechanism=%s count=%d detail=%s" % (v["mechanism"], agg["violation_counts"].get(v["mechanism"], 0), json.dumps(v["detail"])[:600]))
             print("VIOLATION property=%s replay=%s" % (prop_id, path))
+        for r in reasons:
+            print("NOTE (run also incomplete): %s" % r.replace("\n", " | ")[:600])
         rc = 1
     elif reasons:
         for r in reasons:
